@@ -69,12 +69,7 @@ func (r *Real32) MAX(a, b *Real32) Scalar {
 }
 /* -------------------------------------------------------------------------- */
 func (c *Real32) ABS(a *Real32) Scalar {
-  if c.Sign() == -1 {
-    c.NEG(a)
-  } else {
-    c.SET(a)
-  }
-  return c
+  return c.Abs(a)
 }
 /* -------------------------------------------------------------------------- */
 func (c *Real32) NEG(a *Real32) *Real32 {
